@@ -16,17 +16,17 @@ case "$1" in
     ;;
   sync)
     rsync -a --exclude .git --exclude work --exclude replays --exclude harness/target --exclude lean/.lake --exclude harness/Cargo.toml /verif/ $RIG/
-    git -C $WT checkout -q -- . ; git -C $WT checkout -q --detach $(git -C /repo rev-parse HEAD)
+    git -C $WT checkout -q -f HEAD ; git -C $WT checkout -q --detach $(git -C /repo rev-parse HEAD)
     ;;
   run)
     patch="$2"; shift 2
-    git -C $WT checkout -q -- .
-    git -C $WT apply "$patch" 2>/dev/null || git -C $WT apply -3 "$patch" || { echo "PATCH DOES NOT APPLY to $(git -C $WT rev-parse --short HEAD)"; git -C $WT checkout -q -- .; exit 3; }
+    git -C $WT checkout -q -f HEAD
+    git -C $WT apply "$patch" 2>/dev/null || git -C $WT apply -3 "$patch" || { echo "PATCH DOES NOT APPLY to $(git -C $WT rev-parse --short HEAD)"; git -C $WT checkout -q -f HEAD; exit 3; }
     rc=0
     for p in "$@"; do
       (cd $RIG && VERIF_REPO=$WT ./check $p --tier quick 2>&1 | grep -E "VIOLATION|KNOWN-FINDING|^C[0-9]+:" | cut -c1-300) || true
     done
-    git -C $WT checkout -q -- .
+    git -C $WT checkout -q -f HEAD
     ;;
   clean)
     git -C /repo worktree remove --force $WT || true
